@@ -12,8 +12,9 @@
 (*                                                                                                      *)
 (* Shapes (all JSON-friendly, fixed field sets):                                                        *)
 (*   Trivia  = Seq([k: "ws"|"nl"|"c", p: Seq(STRING)])    "c": p = the comment's lines (no newline chars) *)
-(*   Part    = [g: Trivia, t: STRING, j: "t"|"b"|"c"|"r"] a terminal (or run of terminals printed tight) *)
-(*             j = how the formatter spaces it: t tight, b binary operator, c comma, r index register    *)
+(*   Part    = [g: Trivia, t: STRING, j: "t"|"b"|"c"|"r"|"a"] a terminal (or run of terminals printed tight) *)
+(*             j = how the formatter spaces it: t tight, b binary operator, c comma (also an import argument: *)
+(*             spc_if_next after it), r index register, a the `as` of an import                           *)
 (*   Block   = [l: Trivia, body: Seq(Stmt), r: Trivia]    l/r = gap before the opening / closing brace   *)
 (*   Stmt    = [k, lead: Trivia, tag: STRING, p1, p2: Seq(Part), blk: Seq(Block), ge: Trivia]            *)
 (*   File    = [body: Seq(Stmt), eof: Trivia]                                                           *)
@@ -29,6 +30,8 @@ EXTENDS Naturals, Sequences, FiniteSets, TLC
 (*   "SameLineStatementsGlued"      format_tokens pushes "\n" only by the token-pair rules, also between statements    *)
 (*                                  that share a source line                                                           *)
 (*   "ElseOnNewLineGainsBlankLine"  brace position new-line pushes "\n" in front of "{" / else unconditionally        *)
+(*   "ImportArgGapDropped"          the trivia in front of a named import argument (`.import /*c*/ foo from ..`) is     *)
+(*                                  never emitted (it sits on the Located<SpecificImportArg>, only its .data is used)  *)
 CONSTANT Devs
 
 NL == "\n"
@@ -86,6 +89,7 @@ Part(st, pt, o) ==
     [] pt.j = "b" -> S(PushS(Gap(S(st), pt.g), pt.t))                 \* push(" ").fmt(op).push(" ")
     [] pt.j = "c" -> SP(PushS(Gap(st, pt.g), pt.t))                   \* fmt(comma).spc_if_next()
     [] pt.j = "r" -> CL(PushS(Gap(st, pt.g), Cased(o.rcase, pt.t)))   \* fmt(register cased); clear_spc_if_next()
+    [] pt.j = "a" -> S(PushS(Gap(st, pt.g), pt.t))                    \* ImportAs: fmt(tag).push(" ")  (the path follows tight)
 RECURSIVE Parts(_, _, _)
 Parts(st, ps, o) == IF Len(ps) = 0 THEN st ELSE Parts(Part(st, Head(ps), o), Tail(ps), o)
 
@@ -142,6 +146,7 @@ Blk(st, b, withL, o) ==
   IN PushS(PushS(s3, NL), "}")
 OptBlk(st, bs, o) == IF Len(bs) = 0 THEN st ELSE Blk(st, bs[1], TRUE, o)
 
+ImportArgPart(pt) == pt.j = "c" /\ pt.t \notin {"*", ","}            \* the path of a named import argument
 (* format_token, one disjunct per Token variant that the model covers *)
 Tok(st, s, o) ==
   CASE s.k = "insn"    -> CL(Parts(SP(PushS(st, Cased(o.mcase, s.tag))), s.p1, o))
@@ -166,6 +171,16 @@ Tok(st, s, o) ==
     [] s.k = "assert"  -> Parts(SP(Parts(S(PushS(st, s.tag)), s.p1, o)), s.p2, o)   \* the space stays pending without a message
     [] s.k = "trace"   -> IF Len(s.p1) = 0 THEN CL(PushS(st, s.tag)) ELSE Parts(SP(PushS(st, s.tag)), s.p1, o)
     [] s.k = "file"    -> Parts(S(PushS(st, s.tag)), s.p1, o)
+    (* .import: p1 = arguments (`*` / paths: class c, `as`: class a, its path: t, commas: c), p2 = <<from, "file">> *)
+    [] s.k = "import"  -> LET args == IF "ImportArgGapDropped" \in Devs
+                                      THEN [n \in DOMAIN s.p1 |-> IF ImportArgPart(s.p1[n]) THEN [s.p1[n] EXCEPT !.g = <<>>] ELSE s.p1[n]]
+                                      ELSE s.p1 IN
+                          OptBlk(SP(Part(S(Part(S(CL(Parts(S(PushS(st, s.tag)), args, o))), s.p2[1], o)), s.p2[2], o)), s.blk, o)
+    (* .define id { key = value ... }: p1 = <<id>>, the block holds "cfgpair" statements *)
+    [] s.k = "define"  -> Blk(S(Part(S(PushS(st, s.tag)), s.p1[1], o)), s.blk[1], TRUE, o)
+    (* ConfigPair: tag = key, p1 = <<"=", value parts...>>, or a nested map: ge = trivia of the value, blk = <<map>> *)
+    [] s.k = "cfgpair" -> LET a == S(Part(S(PushS(st, s.tag)), s.p1[1], o)) IN
+                          IF Len(s.blk) = 0 THEN Parts(a, Tail(s.p1), o) ELSE Blk(Gap(a, s.ge), s.blk[1], TRUE, o)
 
 (* one iteration of the loop of format_tokens: optional "\n"s, the token, then the trivia of the NEXT token.
    Repaired SameLineStatementsGlued: a token (not Eof) whose leading trivia holds no newline first gets the line
@@ -235,14 +250,15 @@ RECURSIVE BodyComments(_, _), StmtComments(_, _), BlkComments(_, _, _)
 BlkComments(b, withL, fwdOnly) == (IF withL THEN TrivComments(b.l) ELSE <<>>) \o BodyComments(b.body, fwdOnly) \o TrivComments(b.r)
 (* source order inside a statement: lead, then (text: encoding before the expression; others: p1 before p2), blocks *)
 StmtComments(s, fwdOnly) ==
-  LET head == IF s.k = "text" THEN PartsComments(s.p2) \o PartsComments(s.p1) ELSE PartsComments(s.p1) \o PartsComments(s.p2)
+  LET p1f == IF s.k = "import" /\ fwdOnly /\ "ImportArgGapDropped" \in Devs THEN SelectSeq(s.p1, LAMBDA pt : ~ImportArgPart(pt)) ELSE s.p1
+      head == IF s.k = "text" THEN PartsComments(s.p2) \o PartsComments(s.p1) ELSE PartsComments(p1f) \o PartsComments(s.p2)
       (* a bare block's brace trivia IS the statement's lead, which the model keeps in s.lead (b.l is empty there) *)
-      b1 == IF Len(s.blk) >= 1 THEN BlkComments(s.blk[1], ~fwdOnly, fwdOnly) ELSE <<>>
-      b2 == IF Len(s.blk) >= 2 THEN TrivComments(s.ge) \o BlkComments(s.blk[2], ~fwdOnly, fwdOnly) ELSE <<>>
+      b1 == IF Len(s.blk) >= 1 THEN (IF s.k = "cfgpair" THEN TrivComments(s.ge) ELSE <<>>) \o BlkComments(s.blk[1], ~(fwdOnly /\ "OpenBraceGapDropped" \in Devs), fwdOnly) ELSE <<>>
+      b2 == IF Len(s.blk) >= 2 THEN TrivComments(s.ge) \o BlkComments(s.blk[2], ~(fwdOnly /\ "OpenBraceGapDropped" \in Devs), fwdOnly) ELSE <<>>
   IN TrivComments(s.lead) \o head \o b1 \o b2
 BodyComments(body, fwdOnly) == IF Len(body) = 0 THEN <<>> ELSE StmtComments(Head(body), fwdOnly) \o BodyComments(Tail(body), fwdOnly)
 AllComments(file) == BodyComments(file.body, FALSE) \o TrivComments(file.eof)          \* every comment of the source, in order
-ForwardedComments(file) == BodyComments(file.body, TRUE) \o TrivComments(file.eof)    \* all but those in front of a block's "{"
+ForwardedComments(file) == BodyComments(file.body, TRUE) \o TrivComments(file.eof)    \* all but those in gaps the pinned readings (Devs) drop
 
 (* comments carried by a chunk list, as lists of lines *)
 UnNl(s) == IF EndsNl(s) THEN SubSeq(s, 1, Len(s) - 1) ELSE s
@@ -264,6 +280,11 @@ RECURSIVE BodyHasDroppedComment(_), BlkHasDropped(_)
 BlkHasDropped(b) == TrivComments(b.l) # <<>> \/ BodyHasDroppedComment(b.body)
 BodyHasDroppedComment(body) ==
   \E i \in 1..Len(body) : \E n \in 1..Len(body[i].blk) : BlkHasDropped(body[i].blk[n])
+
+RECURSIVE BodyHasImportArgComment(_)
+BodyHasImportArgComment(body) ==
+  \/ \E i \in 1..Len(body) : body[i].k = "import" /\ \E n \in 1..Len(body[i].p1) : ImportArgPart(body[i].p1[n]) /\ TrivComments(body[i].p1[n].g) # <<>>
+  \/ \E i \in 1..Len(body) : \E n \in 1..Len(body[i].blk) : BodyHasImportArgComment(body[i].blk[n].body)
 
 (* statements that share a source line and between which format_tokens pushes no "\n": their texts are glued *)
 RECURSIVE BodyHasSameLinePair(_)
